@@ -108,6 +108,12 @@ class CallMixin:
                 yield from self.call_prim(f.tag, args, kwargs, st, fr, node)
                 return
             c = self.contracts.get(f.tag)
+            if c is None and f.tag.startswith("import:"):
+                # a function of a compiled extension module: the contract of the C function that implements it
+                for cc in self.contracts.values():
+                    if cc.lang == "c" and cc.runtime_name == f.tag[7:] and "#" not in cc.name:
+                        c = cc
+                        break
             if c is not None:
                 yield from self.call_contract(Func("<opaque>", f.tag, None), c, args, kwargs, st, fr, node)
                 return
@@ -318,7 +324,16 @@ class CallMixin:
             srcv = env[c.gen["source"]] if "source" in c.gen else self.spec_eval_val(c.gen["source_expr"], cur, cf)
             results = [(cur, IterView(srcv))]
         elif c.returns and c.returns != "none":
-            results = list(self.instantiate(cur, c.returns, "%s!ret%d" % (c.name.split(".")[-1], next(_cc)), fresh=True))
+            rty = c.returns
+            if " if " in rty and " else " in rty:
+                # "<type A> if <formal> else <type B>" : the result type depends on an option that is constant at the call site
+                ta, rest = rty.split(" if ", 1)
+                cond, tb = rest.split(" else ", 1)
+                cv = self.ev1(ast.parse(cond.strip(), mode="eval").body, cur, cf)
+                if not isinstance(cv, bool):
+                    raise Unsupported("result type of %s depends on a symbolic option" % c.name, node)
+                rty = ta.strip() if cv else tb.strip()
+            results = list(self.instantiate(cur, rty, "%s!ret%d" % (c.name.split(".")[-1], next(_cc)), fresh=True))
         for s1, rv in results:
             s1.env = dict(env)
             cf2 = copy.copy(cf)
